@@ -13,11 +13,13 @@ package main
 
 import (
 	"context"
+	"crypto/sha256"
 	"flag"
 	"fmt"
 	"os"
 	"path/filepath"
 	"runtime"
+	"sort"
 	"strings"
 	"sync"
 	"time"
@@ -101,6 +103,258 @@ func mkBlock(seed uint32, n int) (*wire.BlockHeader, []*wire.MsgTx) {
 	return h, txs
 }
 
+// ---- hb cases: what HandleBlock does with a block and its corruptions (C04) -----------------------
+
+func dsha(b []byte) [32]byte {
+	a := sha256.Sum256(b)
+	return sha256.Sum256(a[:])
+}
+
+// ownRoot is an independent implementation of the Bitcoin merkle root.
+func ownRoot(hs []bitcoin.Hash32) bitcoin.Hash32 {
+	if len(hs) == 0 {
+		return bitcoin.Hash32{}
+	}
+	level := make([][32]byte, len(hs))
+	for i, h := range hs {
+		level[i] = h
+	}
+	for len(level) > 1 {
+		var next [][32]byte
+		for i := 0; i < len(level); i += 2 {
+			l := level[i]
+			r := l
+			if i+1 < len(level) {
+				r = level[i+1]
+			}
+			next = append(next, dsha(append(append([]byte{}, l[:]...), r[:]...)))
+		}
+		level = next
+	}
+	return bitcoin.Hash32(level[0])
+}
+
+type hbSpy struct {
+	sync.Mutex
+	ids       map[bitcoin.Hash32]int
+	relevant  map[bitcoin.Hash32]bool
+	header    *wire.BlockHeader
+	calls     int
+	procFail  int // 0-based call index, -1 never
+	cancelAt  int // cancel during this ProcessTx call (1-based), 0 never
+	cbFail    bool
+	cfFail    int
+	cfCalls   int
+	storeFail bool
+	bd        *bitcoin_reader.BlockDownloader
+	effects   []string
+	verified  bool
+}
+
+func (s *hbSpy) ProcessTx(ctx context.Context, tx *wire.MsgTx) (bool, error) {
+	s.Lock()
+	defer s.Unlock()
+	call := s.calls
+	s.calls++
+	if call == s.procFail {
+		return false, errors.New("processor failure")
+	}
+	if s.cancelAt != 0 && call+1 == s.cancelAt {
+		s.bd.Cancel(ctx)
+	}
+	return s.relevant[*tx.TxHash()], nil
+}
+func (s *hbSpy) CancelTx(ctx context.Context, txid bitcoin.Hash32) error                      { return nil }
+func (s *hbSpy) AddTxConflict(ctx context.Context, a, b bitcoin.Hash32) error                   { return nil }
+func (s *hbSpy) UpdateTxChainDepth(ctx context.Context, t bitcoin.Hash32, d uint32) error       { return nil }
+func (s *hbSpy) ConfirmTx(ctx context.Context, txid bitcoin.Hash32, h int, p *merkle_proof.MerkleProof) error {
+	s.Lock()
+	defer s.Unlock()
+	s.effects = append(s.effects, fmt.Sprintf("EConfirm %d", s.ids[txid]))
+	// the proof must verify against the requested header for exactly this txid
+	q := p.Copy()
+	q.BlockHeader = s.header
+	if p.TxID == nil || !p.TxID.Equal(&txid) || q.Verify() != nil || p.BlockHeader == nil ||
+		!p.BlockHeader.BlockHash().Equal(s.header.BlockHash()) {
+		s.verified = false
+	}
+	k := s.cfCalls
+	s.cfCalls++
+	if k == s.cfFail {
+		return errors.New("confirm failure")
+	}
+	return nil
+}
+func (s *hbSpy) ProcessCoinbaseTx(ctx context.Context, b bitcoin.Hash32, tx *wire.MsgTx) error {
+	s.Lock()
+	defer s.Unlock()
+	s.effects = append(s.effects, "ECoinbase")
+	if s.cbFail {
+		return errors.New("coinbase failure")
+	}
+	return nil
+}
+func (s *hbSpy) FetchBlockTxIDs(ctx context.Context, h bitcoin.Hash32) ([]bitcoin.Hash32, bool, error) {
+	return nil, false, nil
+}
+func (s *hbSpy) AppendBlockTxIDs(ctx context.Context, h bitcoin.Hash32, l []bitcoin.Hash32) error {
+	s.Lock()
+	defer s.Unlock()
+	ids := make([]string, len(l))
+	for i, x := range l {
+		ids[i] = fmt.Sprint(s.ids[x])
+	}
+	s.effects = append(s.effects, "EAppend "+coqfmt.List(ids))
+	if s.storeFail {
+		return errors.New("store failure")
+	}
+	return nil
+}
+
+func optNat(k int, on bool) string {
+	if !on {
+		return "None"
+	}
+	return fmt.Sprintf("(Some %d%%nat)", k)
+}
+
+func runHB(c *Case) {
+	ctx := coqfmt.QuietContext()
+	n := c.N
+	txs := make([]*wire.MsgTx, n)
+	hashes := make([]bitcoin.Hash32, n)
+	spy := &hbSpy{ids: map[bitcoin.Hash32]int{}, relevant: map[bitcoin.Hash32]bool{}, procFail: -1, cfFail: -1, verified: true}
+	for i := range txs {
+		tx := wire.NewMsgTx(1)
+		tx.LockTime = uint32(c.ID*100000 + i)
+		txs[i] = tx
+		hashes[i] = *tx.TxHash()
+		spy.ids[hashes[i]] = i + 1
+	}
+	for _, r := range c.Relevant {
+		if r < n {
+			spy.relevant[hashes[r]] = true
+		}
+	}
+	header := &wire.BlockHeader{Version: 1, Timestamp: 1600000000, Bits: 0x1d00ffff, Nonce: uint32(c.ID), MerkleRoot: ownRoot(hashes)}
+	spy.header = header
+	delivered := append([]*wire.MsgTx{}, txs...)
+	count := uint64(n)
+	hdr := header
+	extra := func(j int) *wire.MsgTx {
+		tx := wire.NewMsgTx(1)
+		tx.LockTime = uint32(c.ID*100000 + 50000 + j)
+		spy.ids[*tx.TxHash()] = 1000 + j
+		return tx
+	}
+	k := c.K
+	if n > 0 {
+		k = c.K % n
+	}
+	dupRelevant := false
+	switch c.Corrupt {
+	case "drop":
+		delivered = append(delivered[:k:k], delivered[k+1:]...)
+		count = uint64(len(delivered))
+	case "add":
+		x := extra(0)
+		delivered = append(delivered[:k:k], append([]*wire.MsgTx{x}, delivered[k:]...)...)
+		count = uint64(len(delivered))
+		if k%2 == 0 {
+			spy.relevant[*x.TxHash()] = true
+		}
+	case "swap":
+		if n > 1 {
+			j := (k + 1) % n
+			delivered[k], delivered[j] = delivered[j], delivered[k]
+		}
+	case "alter":
+		delivered[k] = extra(1)
+	case "count+1":
+		count++
+	case "count-1":
+		count--
+	case "cut":
+		delivered = delivered[:k]
+	case "wronghdr":
+		h2 := *header
+		h2.Nonce++
+		hdr = &h2
+	case "dup1": // same merkle root when n is odd
+		delivered = append(delivered, txs[n-1])
+		count = uint64(len(delivered))
+		dupRelevant = spy.relevant[hashes[n-1]]
+	case "dup2": // same merkle root when the level above the leaves has an odd length > 1
+		if n >= 2 {
+			delivered = append(delivered, txs[n-2], txs[n-1])
+			count = uint64(len(delivered))
+			dupRelevant = spy.relevant[hashes[n-1]] || spy.relevant[hashes[n-2]]
+		}
+	}
+	switch c.Fault {
+	case "procfail":
+		spy.procFail = c.FaultK % (len(delivered) + 1)
+	case "cancel":
+		spy.cancelAt = 1 + c.FaultK%(len(delivered)+1)
+	case "cbfail":
+		spy.cbFail = true
+	case "cffail":
+		spy.cfFail = c.FaultK % 3
+	case "storefail":
+		spy.storeFail = true
+	}
+	bd := bitcoin_reader.NewBlockDownloader(spy, spy, *header.BlockHash(), 500)
+	spy.bd = bd
+	ch := make(chan *wire.MsgTx, len(delivered)+1)
+	var dh []bitcoin.Hash32
+	var ids []string
+	for _, tx := range delivered {
+		ch <- tx
+		dh = append(dh, *tx.TxHash())
+		ids = append(ids, fmt.Sprint(spy.ids[*tx.TxHash()]))
+	}
+	close(ch)
+	done := make(chan error, 1)
+	go func() { done <- bd.HandleBlock(ctx, hdr, count, ch) }()
+	result := 3
+	select {
+	case <-done:
+		<-bd.Started
+		// the first Complete value is the download's result
+		select {
+		case err := <-bd.Complete:
+			switch {
+			case err == nil:
+				result = 0
+			case strings.Contains(err.Error(), "Block Download Cancelled"):
+				result = 1
+			case errors.Cause(err) == bitcoin_reader.ErrWrongBlock:
+				result = 2
+			}
+		default:
+			result = 9
+		}
+	case <-time.After(2 * time.Second):
+		result = 9
+	}
+	ownR := ownRoot(dh)
+	rootOK := ownR.Equal(&header.MerkleRoot)
+	var rel []string
+	for h, v := range spy.relevant {
+		if v {
+			rel = append(rel, fmt.Sprint(spy.ids[h]))
+		}
+	}
+	sort.Strings(rel)
+	spy.Lock()
+	defer spy.Unlock()
+	in := fmt.Sprintf("(mkBlockIn %s %d %s %s %s %s %s %s %s %s %s)", coqfmt.Bool(c.Corrupt != "wronghdr"), count, coqfmt.List(ids),
+		coqfmt.List(rel), coqfmt.Bool(rootOK), coqfmt.Bool(!(rootOK && dupRelevant && (c.Corrupt == "dup1" || c.Corrupt == "dup2"))),
+		optNat(spy.procFail, spy.procFail >= 0), optNat(spy.cancelAt, spy.cancelAt != 0), coqfmt.Bool(spy.cbFail),
+		optNat(spy.cfFail, spy.cfFail >= 0), coqfmt.Bool(spy.storeFail))
+	c.coq = fmt.Sprintf("(mkHCase %s\n  %s %d %s)", in, coqfmt.List(spy.effects), result, coqfmt.Bool(spy.verified))
+}
+
 // ---- dl cases -----------------------------------------------------------------------------------
 
 type Case struct {
@@ -108,6 +362,13 @@ type Case struct {
 	Kind  string   `json:"kind"` // dl | mgr
 	Ops   []string `json:"ops"`  // dl: event names; mgr: scenario steps
 	Conc  int      `json:"conc,omitempty"`
+	// hb: block content case
+	N        int    `json:"n,omitempty"`
+	Relevant []int  `json:"relevant,omitempty"`
+	Corrupt  string `json:"corrupt,omitempty"`
+	K        int    `json:"k,omitempty"`
+	Fault    string `json:"fault,omitempty"`
+	FaultK   int    `json:"fault_k,omitempty"`
 	coq   string
 	trace []string
 }
@@ -600,6 +861,7 @@ func main() {
 	shards := flag.Int("shards", 16, "number of cases files")
 	replay := flag.String("replay", "", "JSON file with cases to re-execute instead of generating")
 	tier := flag.String("tier", "quick", "")
+	profile := flag.String("profile", "C16", "C16 (schedules, manager) | C04 (block contents)")
 	flag.Parse()
 	os.MkdirAll(*out, 0o755)
 	var cases []Case
@@ -628,8 +890,10 @@ func main() {
 				rec(append(prefix, k), d-1)
 			}
 		}
-		rec(nil, depth)
-		for i := 0; i < *n; i++ {
+		if *profile == "C16" {
+			rec(nil, depth)
+		}
+		for i := 0; i < *n && *profile == "C16"; i++ {
 			l := 4 + r.Intn(6)
 			ops := []string{"arrive"}
 			if r.Chance(1, 4) {
@@ -640,7 +904,34 @@ func main() {
 			}
 			cases = append(cases, Case{ID: len(cases), Kind: "dl", Ops: ops})
 		}
-		for i := 0; i < *n/15+2; i++ {
+		corrupts := []string{"none", "none", "drop", "add", "swap", "alter", "count+1", "count-1", "cut", "wronghdr", "dup1", "dup2"}
+		faults := []string{"", "", "", "procfail", "cancel", "cbfail", "cffail", "storefail"}
+		if *profile == "C04" {
+			// every tree width 1..17 with every corruption, then random blocks up to 70 transactions
+			for w := 1; w <= 17; w++ {
+				for _, cor := range corrupts[1:] {
+					rel := []int{}
+					for j := 0; j < w; j++ {
+						if r.Chance(1, 2) || j == w-1 {
+							rel = append(rel, j)
+						}
+					}
+					cases = append(cases, Case{ID: len(cases), Kind: "hb", Ops: []string{}, N: w, Relevant: rel, Corrupt: cor, K: r.Intn(w)})
+				}
+			}
+			for i := 0; i < *n*4; i++ {
+				w := 1 + r.Intn(70)
+				rel := []int{}
+				for j := 0; j < w; j++ {
+					if r.Chance(1, 3) {
+						rel = append(rel, j)
+					}
+				}
+				cases = append(cases, Case{ID: len(cases), Kind: "hb", Ops: []string{}, N: w, Relevant: rel,
+					Corrupt: corrupts[r.Intn(len(corrupts))], K: r.Intn(w), Fault: faults[r.Intn(len(faults))], FaultK: r.Intn(w + 1)})
+			}
+		}
+		for i := 0; i < *n/15+2 && *profile == "C16"; i++ {
 			conc := 1 + r.Intn(3)
 			var ops []string
 			for j := 0; j < 1+r.Intn(3); j++ {
@@ -670,6 +961,9 @@ func main() {
 			if cases[i].Kind == "dl" {
 				runDL(&cases[i])
 			}
+			if cases[i].Kind == "hb" {
+				runHB(&cases[i])
+			}
 		}(i)
 	}
 	wg.Wait()
@@ -681,8 +975,8 @@ func main() {
 	}
 	stats := map[string]int{}
 	distinct := map[string]bool{}
-	var dl, mg []string
-	var dlID, mgID []int
+	var dl, mg, hb []string
+	var dlID, mgID, hbID []int
 	for _, c := range cases {
 		stats["kind_"+c.Kind]++
 		if c.Kind == "dl" {
@@ -690,6 +984,12 @@ func main() {
 			dlID = append(dlID, c.ID)
 			distinct[strings.Join(c.trace, ",")] = true
 			stats[fmt.Sprintf("performed_events_%d", len(c.trace))]++
+		} else if c.Kind == "hb" {
+			hb = append(hb, c.coq)
+			hbID = append(hbID, c.ID)
+			distinct[c.coq] = true
+			stats["corrupt_"+c.Corrupt]++
+			stats["fault_"+c.Fault]++
 		} else {
 			mg = append(mg, c.coq)
 			mgID = append(mgID, c.ID)
@@ -710,13 +1010,20 @@ func main() {
 				idx = append(idx, ids[i])
 			}
 			coqfmt.WriteCases(filepath.Join(*out, fmt.Sprintf("cases_%d.v", file)),
-				"From BR Require Import Base.Prelude Blocks.DownloaderLTS Blocks.Manager Blocks.ManagerCheck.", ty, fn, part)
+				"From BR Require Import Base.Prelude Blocks.DownloaderLTS Blocks.Manager Blocks.ManagerCheck Blocks.BlockHandler.", ty, fn, part)
 			index = append(index, idx)
 			file++
 		}
 	}
-	write(dl, dlID, "dcase", "dmismatches", *shards-1)
-	write(mg, mgID, "mcase", "mmismatches", 1)
+	if len(dl) > 0 {
+		write(dl, dlID, "dcase", "dmismatches", *shards-1)
+	}
+	if len(mg) > 0 {
+		write(mg, mgID, "mcase", "mmismatches", 1)
+	}
+	if len(hb) > 0 {
+		write(hb, hbID, "hcase", "hmismatches", *shards)
+	}
 	coqfmt.WriteJSON(filepath.Join(*out, "cases.json"), cases)
 	samples := []interface{}{}
 	for i := 0; i < len(cases) && len(samples) < 3; i += len(cases)/3 + 1 {
